@@ -96,7 +96,7 @@ def generate(seed, tier):
                     "hs": rng.randint(0, 2 ** 32 - 1),
                     "io": _io_plan(rng, "write"),
                     # where the source lives and how the paths are spelled on the command line
-                    "layout": rng.choice(["flat", "flat", "flat", "subdir", "abs", "abs-out"]),
+                    "layout": rng.choice(["flat", "flat", "subdir", "abs", "abs-out", "prepared", "prepared"]),
                 }
             )
         for _ in range(rng.randint(1, 2)):
@@ -273,6 +273,11 @@ def _execute(sc, root, want_texts):
         r.update(kw)
         return r
 
+    # all sources also exist up front (older than every module file that will be written)
+    os.makedirs(os.path.join(store, "prepared"), exist_ok=True)
+    for k_, src_ in enumerate(sc["sources"]):
+        with open(os.path.join(store, "prepared", f"src{k_}.nsl"), "w") as f:
+            f.write(src_)
     host_loader = LinearIR.FilesystemModuleLoader()  # the host keeps one loader for the whole history
     model = {}  # name -> {"src": i, "opt": o, "writes": n} | {"unknown": True}
     history = {}  # name -> list of earlier (src, opt)
@@ -304,7 +309,9 @@ def _execute(sc, root, want_texts):
             with open(os.path.join(srcdir, base + ".nsl"), "w") as f:
                 f.write(src)
             src_arg = {"flat": base + ".nsl", "subdir": os.path.join("src", base + ".nsl"),
-                       "abs": os.path.join(store, base + ".nsl"), "abs-out": base + ".nsl"}[layout]
+                       "abs": os.path.join(store, base + ".nsl"), "abs-out": base + ".nsl",
+                       # a source file that has been lying around since before anything was built
+                       "prepared": os.path.join("prepared", f"src{i}.nsl")}[layout]
             out_arg = os.path.join(store, name) if layout in ("abs", "abs-out") else name
             bump("writer_layout_" + layout)
             ok_ref, why = is_accepted(i, opt)
